@@ -506,3 +506,24 @@ Section AddrProofs.
       destruct Ed as [[_ ->]|(_ & _ & ->)]; cbn; tauto.
   Qed.
 End AddrProofs.
+
+(* ================= the encoder's buffer estimate =================
+   fastBase58EncodingAlphabet allocates n*138/100 + 1 base-58 digits for n
+   significant bytes; every n-byte value fits (58^138 > 256^100). *)
+Lemma buffer_enough n : 0 <= n -> 256 ^ n < 58 ^ (n * 138 / 100 + 1).
+Proof.
+  intros Hn. destruct (Z.eq_dec n 0) as [->|Hnz]; [reflexivity|].
+  set (k := n * 138 / 100).
+  assert (Hk : 0 <= k) by (apply Z.div_pos; lia).
+  assert (Hk2 : n * 138 < 100 * (k + 1)).
+  { pose proof (Z.div_mod (n * 138) 100 ltac:(lia)) as E.
+    pose proof (Z.mod_pos_bound (n * 138) 100 ltac:(lia)) as B. subst k. lia. }
+  assert (H0 : 256 ^ 100 < 58 ^ 138) by (apply Z.ltb_lt; vm_compute; reflexivity).
+  apply (Z.pow_lt_mono_l_iff _ _ 100); [lia| |lia|].
+  - apply Z.pow_nonneg. lia.
+  - rewrite <- !Z.pow_mul_r by lia.
+    apply Z.lt_trans with (58 ^ (138 * n)).
+    + rewrite (Z.mul_comm n 100), !Z.pow_mul_r by lia.
+      apply Z.pow_lt_mono_l; [lia|]. split; [apply Z.pow_nonneg; lia|exact H0].
+    + apply Z.pow_lt_mono_r; lia.
+Qed.
